@@ -225,6 +225,19 @@ Theorem C02_model_modinv_inverts : forall p, prime p -> inv_ok p.
 Proof. exact prime_inv_ok. Qed.
 Print Assumptions C02_model_modinv_inverts.
 
+(* the id-keyed (map-based) code of LagrangeFor agrees with the value-keyed function the theorems speak about
+   whenever the ids' scalars are pairwise distinct (the quantifier of C02) *)
+Theorem C02_model_lagrange_ids_value_keyed : forall q ids j,
+  NoDup (map (id_scalar q) ids) -> In j ids ->
+  lagrange_ids q ids j = Some (lagrange_coef q (map (id_scalar q) ids) (id_scalar q j)).
+Proof. exact lagrange_ids_value_keyed. Qed.
+Print Assumptions C02_model_lagrange_ids_value_keyed.
+(* outside that domain: ids "a" and "\x00a" have the same scalar and get coefficient 0; an id outside the
+   interpolation domain makes LagrangeFor panic (None) *)
+Example C02_ex_model_colliding_ids :
+  lagrange_ids 101 [[97]; [0; 97]; [98]]%N [97]%N = Some 0%Z /\ lagrange_ids 101 [[97]; [98]]%N [99]%N = None.
+Proof. split; vm_compute; reflexivity. Qed.
+
 (* ---- Examples: every theorem above instantiated in Z_101 (F = G = Z_101, g = 1), n = 4, t = 2 ---- *)
 Section Examples.
 Open Scope Z_scope.
@@ -282,6 +295,83 @@ Qed.
 (* the base point of the instance is faithful (hypothesis of the adversarial theorems) *)
 Example C02_ex_faithful : Sharing.g_faithful _ (zq0 q101) _ (zq0 q101) (zqmul q101) g101.
 Proof. exact faithful101. Qed.
+
+Local Notation Lag := (FieldPoly.lagrange _ (zq1 q101) (zqmul q101) (zqsub q101) (zqinv q101) dec101).
+Local Notation Fsum := (FieldPoly.fsum _ (zq0 q101) (zqadd q101)).
+Local Notation Peval := (FieldPoly.peval _ (zq0 q101) (zqadd q101) (zqmul q101)).
+Local Notation Eofpoly := (FieldPoly.eofpoly _ (zq0 q101) dec101 _ (zqmul q101) g101).
+Local Notation Eeval := (FieldPoly.eeval _ _ (zqadd q101) (zq0 q101) (zqmul q101)).
+Local Notation Esum := (FieldPoly.esum _ (zqadd q101)).
+Local Notation Act := (FieldPoly.act _ _ (zqmul q101) g101).
+
+(* C02_sum_lagrange_eq_1, C02_lagrange_code_formula, C02_lagrange_interp at S = {4,1,3} *)
+Example C02_ex_sum_lagrange : Fsum (map (Lag S3) S3) = zq1 q101.
+Proof.
+  destruct C02_ex_hyps as (_ & _ & H1 & H2 & _).
+  apply (C02_sum_lagrange_eq_1 _ _ _ _ _ _ _ _ _ FT101 dec101 S3 H1 H2). discriminate.
+Qed.
+Example C02_ex_lagrange_code_formula :
+  Lag S3 (z101 1) = FieldPoly.basis_at _ (zq1 q101) (zqmul q101) (zqsub q101) (zqdiv q101) dec101 S3 (z101 1) (zq0 q101)
+  /\ Lag S3 (z101 1) = z101 2.
+Proof.
+  destruct C02_ex_hyps as (_ & _ & H1 & H2 & _). split.
+  - apply (C02_lagrange_code_formula _ _ _ _ _ _ _ _ _ FT101 dec101 S3 (z101 1) H1 H2). cbn. auto.
+  - z101_eq.
+Qed.
+Example C02_ex_lagrange_interp :
+  Fsum (map (fun xj => zqmul q101 (Lag S3 xj) (Peval (map z101 [5; 7; 9]) xj)) S3) = z101 5.
+Proof.
+  destruct C02_ex_hyps as (_ & _ & H1 & H2 & _).
+  rewrite (C02_lagrange_interp _ _ _ _ _ _ _ _ _ FT101 dec101 S3 (map z101 [5; 7; 9]) H1 H2 (le_n _)). z101_eq.
+Qed.
+(* C02_root_counting: a polynomial of length 2 with the two roots 1, 2 (it is the zero polynomial) *)
+Example C02_ex_root_counting : Forall (fun a => a = zq0 q101) (map z101 [0; 101]).
+Proof.
+  apply (C02_root_counting _ _ _ _ _ _ _ _ _ FT101 dec101 (map z101 [1; 2])); [z101_nodup|cbn; lia|].
+  intros r [<-|[<-|[]]]; z101_eq.
+Qed.
+(* C02_sum_succeeds + C02_table_is_function_of_broadcasts: the honest exponent polynomials, in two different orders *)
+Example C02_ex_table_function_of_broadcasts :
+  exists s s', Esum (map Eofpoly fs) = Some s /\ Esum (rev (map Eofpoly fs)) = Some s' /\
+               forall x, Eeval s x = Eeval s' x.
+Proof.
+  assert (Hflag : forall f, In f fs -> (if dec101 (hd (zq0 q101) f) (zq0 q101) then true else false) = false).
+  { intros f Hf. destruct (dec101 (hd (zq0 q101) f) (zq0 q101)) as [E|]; [exfalso|reflexivity].
+    revert E. cbn in Hf. destruct Hf as [<-|[<-|[<-|[]]]]; z101_neq. }
+  destruct (C02_sum_succeeds _ (zq0 q101) dec101 _ (zqadd q101) (zqmul q101) g101 (map z101 [5; 7; 9])
+              [map z101 [11; 0; 3]; map z101 [20; 100; 1]] false) as [s Hs];
+    [discriminate|repeat constructor|rewrite Forall_forall; exact Hflag|].
+  destruct (C02_sum_succeeds _ (zq0 q101) dec101 _ (zqadd q101) (zqmul q101) g101 (map z101 [20; 100; 1])
+              [map z101 [11; 0; 3]; map z101 [5; 7; 9]] false) as [s' Hs'];
+    [discriminate|repeat constructor|rewrite Forall_forall; intros f Hf; apply Hflag; cbn in Hf |- *; tauto|].
+  exists s, s'. split; [exact Hs|]. split; [exact Hs'|].
+  apply (C02_table_is_function_of_broadcasts _ _ _ _ _ _ _ _ _ ML101 _ _ s s' (Permutation_rev _) Hs Hs').
+Qed.
+(* C02_vss_check_sound / C02_vss_keygen_adversarial_good: the checks are passable (here by the honest values) *)
+Example C02_ex_vss_adversarial_hyps :
+  let es := map Eofpoly fs in
+  let us := fun x => map (fun f => Peval f x) fs in
+  Sharing.GoodSharing _ (zq0 q101) (zq1 q101) (zqadd q101) (zqmul q101) (zqsub q101) (zqinv q101) dec101 _ (zqmul q101) g101
+    (z101 36)
+    (mkSt xs 2 (fun x => Fsum (us x)) (Sharing.Phi _ _ (zqadd q101) (zq0 q101) (zqmul q101) es)
+          (Sharing.sum_constants _ (zqadd q101) (zq0 q101) es)).
+Proof.
+  intros es us. destruct C02_ex_hyps as (H1 & H2 & _).
+  apply (C02_vss_keygen_adversarial_good _ _ _ _ _ _ _ _ _ FT101 dec101 _ _ _ _ _ ML101 g101 xs 2%nat es us (z101 36)
+           faithful101 H1 H2).
+  - cbn; lia.
+  - repeat constructor.
+  - intros x _. unfold us, es. clear. induction fs as [|f l IH]; cbn [map]; constructor; [|exact IH].
+    symmetry. apply (eeval_eofpoly FT101 dec101 ML101 g101).
+  - z101_eq.
+Qed.
+(* C02_cmp_round3_accepts_iff: an honest degree-2 exponent polynomial has the accepted shape for t = 2 *)
+Example C02_ex_round3_accepts :
+  Sharing.cmp_round3_shape_ok _ false 2 (Eofpoly (map z101 [5; 7; 9])) = true /\
+  Sharing.cmp_round3_shape_ok _ false 2 (Eofpoly (map z101 [5; 7])) = false /\
+  Sharing.cmp_round3_shape_ok _ false 2 (Eofpoly (map z101 [0; 7; 9])) = false /\
+  Sharing.cmp_round3_shape_ok _ true 2 (Eofpoly (map z101 [0; 7; 9])) = true.
+Proof. vm_compute. repeat split. Qed.
 End Examples.
 
 (* the same numbers through the executable model (the functions compared with the Go code) *)
